@@ -4,8 +4,8 @@
    pre-parse stage is total, and the grammar's fallback rule never fails on a non-newline character.
    Totality of the whole grammar stage is decided by the search.  Proofs in Proofs/Totality.v. *)
 Require Import BB.Base.Str BB.Base.Xml BB.Model.PreParse BB.Model.PreParseSpec BB.Model.PegSyntax BB.Model.Peg.
-Require Import BB.Model.Types BB.Model.XmlGen BB.Model.Convert BB.Gen.Grammar.
-Require Import BB.Base.Dict BB.Proofs.Totality BB.Proofs.PegEscape BB.Proofs.EscapeLossless BB.Proofs.PegPlain BB.Proofs.PegLine BB.Proofs.LineRule BB.Proofs.PlainLine.
+Require Import BB.Model.Types BB.Model.XmlGen BB.Model.Eid BB.Model.EidSpec BB.Model.Convert BB.Gen.Grammar BB.Gen.TablesParser BB.Gen.TablesLibs.
+Require Import BB.Base.Dict BB.Proofs.Totality BB.Proofs.PegEscape BB.Proofs.EscapeLossless BB.Proofs.PegPlain BB.Proofs.PegLine BB.Proofs.LineRule BB.Proofs.PlainLine BB.Proofs.PlainLineConvert.
 
 Theorem C01_pre_parse_total : forall size s, alphabet_ok s = true -> exists o, pre_parse size s = Some o.
 Proof. exact pre_parse_total. Qed.
@@ -38,6 +38,29 @@ Example C01_plain_line_example :
   let s := of_string "Partly * cloudy {x} SECtion 2/3" in
   has_double s = false /\ none_starts block_lits (s ++ [NL]) = true /\ p_safe (s ++ [NL]) = true /\ no_ctl_start s = true.
 Proof. vm_compute. repeat split. Qed.
+
+(* The same through the WHOLE pipeline - pre_parse, grammar, to_dict, XML builder, footnote resolution, normalisation, eId
+   generation, attachment titles: for every FRBR URI the model knows, every eId prefix and every line that starts with no block
+   keyword, holds no backslash, no doubled marker and no tab, has no blank at either end and only characters XML can hold,
+   conversion as a fragment completes and returns exactly one paragraph holding that line, with the eId the naming convention gives
+   the first paragraph under the caller's prefix. *)
+Theorem C01_plain_line_converts : forall uri prefix s root_meta att_meta,
+  assoc_str uri meta_templates = Some (root_meta, att_meta) ->
+  s <> [] -> Forall okc s -> Forall (fun c => c <> EscapeLossless.BS) s -> has_double s = false ->
+  none_starts block_lits (s ++ [NL]) = true -> p_safe (s ++ [NL]) = true -> no_ctl_start s = true ->
+  Forall (fun c => c <> TAB) s -> edge_ok s -> valid_text s = true ->
+  convert uri (of_string "hier_block_element") prefix (s ++ [NL])
+  = OkR (para (candidate prefix P_TAG (of_string "1")) s).
+Proof. exact plain_line_converts. Qed.
+Print Assumptions C01_plain_line_converts.
+
+(* the instance the theorem predicts, evaluated *)
+Example C01_plain_line_converts_example :
+  let s := of_string "Partly * cloudy {x} SECtion 2/3" in
+  convert (of_string "/akn/za/act/2009/1") (of_string "hier_block_element") (of_string "chp_1") (s ++ [NL])
+  = OkR (El (of_string "p") [(of_string "eId", of_string "chp_1__p_1")] [Tx s])
+  /\ edge_ok s /\ valid_text s = true.
+Proof. split; [vm_compute; reflexivity|]. split; [split|]; vm_compute; reflexivity. Qed.
 
 (* known finding F1 *)
 Theorem C01_refuted_attachment_keyword_with_junk :
